@@ -1126,8 +1126,8 @@ class TermCanvas(Canvas):
                 colors = max(16, colors)
             elif attr in {38, 48}:
                 if idx + 2 < len(attrs) and attrs[idx + 1] == 5:
-                    # 8 bit color specification
-                    color = attrs[idx + 2]
+                    # 8 bit color specification (an index above 255 is clipped)
+                    color = min(attrs[idx + 2], 255)
                     colors = max(256, colors)
                     if attr == 38:
                         fg = color
